@@ -55,6 +55,29 @@ pub fn run(op: &str, rd: &mut Rd) -> Option<R> {
             let tt = match s { PathSeg::Line(_) => 3.0 * t * t - 2.0 * t * t * t, _ => t };
             Ok(format!("{} {} {} {}", e_pt(s.reverse().eval(t)), e_pt(s.eval(1.0 - t)), e_pt(s.to_cubic().eval(t)), e_pt(s.eval(tt))))
         })(),
+        // paths
+        "path.segs" => (|| -> R { let p = rd.els()?; let v: Vec<PathSeg> = segments(p).collect(); Ok(e_segs(&v)) })(),
+        "path.getsegs" => (|| -> R {
+            let p = rd.els()?; let n = p.len();
+            let bp = BezPath::from_vec(p);
+            Ok((0..n + 2).map(|ix| match bp.get_seg(ix) { Some(s) => e_seg(s), None => "none".to_string() }).collect::<Vec<_>>().join(" | "))
+        })(),
+        "path.fromsegs" => (|| -> R { let p = rd.els()?; let v: Vec<PathSeg> = segments(p).collect(); Ok(e_els(BezPath::from_path_segments(v.into_iter()))) })(),
+        "path.rev" => (|| -> R { let p = rd.els()?; let bp = BezPath::from_vec(p); Ok(e_els(bp.reverse_subpaths())) })(),
+        "path.area" => (|| -> R { let p = rd.els()?; Ok(e(p.as_slice().area())) })(),
+        "path.segs_of_fromsegs" => (|| -> R {
+            let p = rd.els()?; let v: Vec<PathSeg> = segments(p).collect();
+            let q = BezPath::from_path_segments(v.into_iter());
+            let w: Vec<PathSeg> = q.segments().collect(); Ok(e_segs(&w))
+        })(),
+        "path.segs_of_revrev" => (|| -> R {
+            let p = rd.els()?; let q = BezPath::from_vec(p).reverse_subpaths().reverse_subpaths();
+            let w: Vec<PathSeg> = q.segments().collect(); Ok(e_segs(&w))
+        })(),
+        "path.segs_of_rev" => (|| -> R {
+            let p = rd.els()?; let q = BezPath::from_vec(p).reverse_subpaths();
+            let w: Vec<PathSeg> = q.segments().collect(); Ok(e_segs(&w))
+        })(),
         _ => return None,
     })
 }
